@@ -171,6 +171,11 @@ def gen_file(rng, path, pats, mode, regime, digits_ok=True):
             "shared_lines": shared}
 
 
+def config_glob_key(syntax):
+    """A glob that matches exactly the config file (and no other generated file)."""
+    return syntax[:-1] + "?"
+
+
 def pep_friendly(vpattern):
     """True when the version pattern separates its parts with '.' only (apart from an optional leading 'v' and
     the dash in front of a TAG).  For other separators bumpver's derived PEP 440 pattern drops the separator, which
@@ -266,6 +271,13 @@ def gen_project(rng, mode="plain", syntaxes=None, allow_mixed=True, max_files=4,
     rng.shuffle(entries)
     if explicit_self:
         entries.insert(rng.randint(0, len(entries)), [syntax, ['current_version = "{version}"']])
+    cfg_glob = None
+    if allow_glob and not explicit_self and rng.random() < 0.12:
+        # a glob entry that (also) covers the config file itself; its pattern occurs in a comment line of the config
+        m = "@k%d" % marker
+        marker += 1
+        cfg_glob = {"key": config_glob_key(syntax), "raw": "%s: {version}" % m, "prefix": "# %s: " % m}
+        entries.insert(rng.randint(0, len(entries)), [cfg_glob["key"], [cfg_glob["raw"]]])
     settings = {"commit": False, "tag": False, "push": False}
     if vcs == "fake" or (vcs == "maybe" and rng.random() < 0.4):
         settings = {"commit": True, "tag": rng.random() < 0.7, "push": rng.random() < 0.5}
@@ -296,6 +308,6 @@ def gen_project(rng, mode="plain", syntaxes=None, allow_mixed=True, max_files=4,
     for _ in range(rng.randint(0, 2)):
         name = rng.choice(["notes.txt", "src/pkg/other.py", "LICENSE", "data.bin"])
         extra[name] = (filler(rng, mode, True, 30) + "\n" + vtext + "\n").encode("utf-8")
-    return {"version_pattern": vpattern, "state": state, "epoch": epoch.isoformat(), "syntax": syntax,
+    return {"version_pattern": vpattern, "state": state, "epoch": epoch.isoformat(), "syntax": syntax, "cfg_glob": cfg_glob,
             "style": style, "cfg": cfg, "cfg_regime": cfg_regime, "files": files, "extra": {k: v.decode("utf-8") for k, v in extra.items()},
             "vcs": vcs_spec, "pep_ok": pep_ok, "unit": pat["unit"], "family": pat["family"]}
